@@ -189,6 +189,8 @@ def run(chk):
             expect(chk, "R-FWD", cc + ".arg[%s]" % pname, b[pname], tags_has=[tag], tags_not=nots, loc=calls[0].loc)
     else:
         chk.ob("R-FWD", cc, "one call reaching the response routine", False, derived="%d" % len(calls), loc=r.fi.loc())
+    from .c03 import xi_sentinel
+    xi_sentinel(chk, P.fn(ACC + ".response_series"), cc, "R-FWD")
     chk.floor("R-T0", 5)
     chk.floor("R-ACC", 9)
     chk.floor("R-FWD", 12)
